@@ -62,7 +62,10 @@ HandleErr(s, k, intx) ==
      ELSE s2
 Op(s, f) == LET k == Fire(s, f) IN IF k = "none" THEN [st |-> s, k |-> "ok"]
                                    ELSE [st |-> HandleErr(s, k, s.root # 0 /\ s.h[s.root].active), k |-> k]
-\* pool checkout used by the transparent reconnect
+\* pool checkout used by the transparent reconnect.  When the record at the head of the queue needs a NEW DBAPI connection
+\* (it has none, or its connection is older than the last pool invalidation) the connect itself is a DBAPI-level operation an
+\* armed fault can hit: the record goes back to the pool without a connection and the Connection stays invalidated.
+NeedsConnect(s) == Head(s.idle) = 0 \/ Head(s.idle) \in s.stale
 Reconnect(s) ==
   LET r == Head(s.idle)
       fresh == s.nconn + 1
@@ -71,10 +74,16 @@ Reconnect(s) ==
           THEN [s EXCEPT !.idle = Tail(@), !.cur = fresh, !.nconn = fresh, !.open = (@ \ {r}) \cup {fresh}, !.inv = FALSE,
                          !.stale = @ \ {r}]
           ELSE [s EXCEPT !.idle = Tail(@), !.cur = r, !.inv = FALSE]
-\* Connection.connection / _revalidate_connection
-Reval(s) == IF ~s.inv THEN [st |-> s, err |-> "none"]
-            ELSE IF s.root # NoH THEN [st |-> s, err |-> "PendingRollbackError"]
-            ELSE [st |-> Reconnect(s), err |-> "none"]
+ConnectFailed(s) ==
+  LET r == Head(s.idle)
+  IN [s EXCEPT !.idle = Append(Tail(@), 0), !.open = @ \ {r}, !.stale = @ \ {r}, !.nfault = @ + 1]
+\* Connection.connection / _revalidate_connection under armed fault f.
+\*   err = "none": proceed with .st (.used = TRUE when the fault was consumed by a failed... never together with "none")
+\*   err # "none": the call raises err
+Reval(s, f) == IF ~s.inv THEN [st |-> s, err |-> "none"]
+               ELSE IF s.root # NoH THEN [st |-> s, err |-> "PendingRollbackError"]
+               ELSE IF f # "none" /\ NeedsConnect(s) THEN [st |-> ConnectFailed(s), err |-> ExcName(f)]
+               ELSE [st |-> Reconnect(s), err |-> "none"]
 \* ---------- mechanism ----------
 Active(s, x) == x # NoH /\ s.h[x].active
 InTx(s) == Active(s, s.root)
@@ -89,12 +98,17 @@ Cancel(s, x) == IF x = NoH THEN s
 NewRoot(s) == LET id == Len(s.h) + 1 IN [s EXCEPT !.h = Append(@, HRec("root", 0, NoH)), !.root = id]
 \* begin() / autobegin: RootTransaction.__init__ -> _begin_impl evaluates self.connection (reconnects when invalidated and no
 \* transaction is attached); do_begin itself is a no-op at the DBAPI level
-DoBegin(s) == IF s.closed THEN R(s, "ResourceClosedError")
-              ELSE IF s.root = NoH THEN R(NewRoot(Reval(s).st), "ok") ELSE R(s, "InvalidRequestError")
-Auto(s) == IF s.root = NoH THEN NewRoot(Reval(s).st) ELSE s
+DoBegin(s, f) == IF s.closed THEN R(s, "ResourceClosedError")
+              ELSE IF s.root = NoH THEN (LET rv == Reval(s, f) IN IF rv.err # "none" THEN R(rv.st, rv.err) ELSE R(NewRoot(rv.st), "ok"))
+              ELSE R(s, "InvalidRequestError")
+\* autobegin on a connection that is known to be valid (Reval already done by the caller)
+Auto(s) == IF s.root = NoH THEN NewRoot(s) ELSE s
 DoNested(s, f) ==
    IF s.closed THEN R(s, "ResourceClosedError")
-   ELSE LET s0 == Auto(s) rv == Reval(s0) IN
+   \* begin_nested(): autobegin (-> _begin_impl evaluates self.connection: reconnect, possibly failing) comes first
+   ELSE LET rv0 == IF s.root = NoH THEN Reval(s, f) ELSE [st |-> s, err |-> "none"] IN
+        IF rv0.err # "none" THEN R(rv0.st, rv0.err)
+        ELSE LET s0 == Auto(rv0.st) rv == Reval(s0, "none") IN
         IF rv.err # "none" THEN R(s0, rv.err)
         ELSE IF Guard(s0) THEN R(s0, "PendingRollbackError")
         ELSE LET n == s0.spseq + 1 id == Len(s0.h) + 1
@@ -104,8 +118,8 @@ DoNested(s, f) ==
                      IN R([s1 EXCEPT !.h = Append(@, HRec("sp", n, s0.nested)), !.nested = id], "ok")
 DoExec(s, f) ==
    IF s.closed THEN R(s, "ResourceClosedError")
-   ELSE LET rv == Reval(s) IN
-        IF rv.err # "none" THEN R(s, rv.err)
+   ELSE LET rv == Reval(s, f) IN
+        IF rv.err # "none" THEN R(rv.st, rv.err)
         \* _execute_context: the inactive-transaction guard runs BEFORE autobegin
         ELSE IF Guard(rv.st) THEN R(rv.st, "PendingRollbackError")
         ELSE LET s0 == Auto(rv.st) IN
@@ -135,7 +149,7 @@ RootCloseImpl(s, x, tryDeact, f) ==
 \* -> a failed commit leaves the root attached but inactive: everything raises PendingRollbackError until rollback()
 RootCommit(s, x, f) ==
    IF s.h[x].active THEN
-      LET rv == Reval(s) IN
+      LET rv == Reval(s, "none") IN
       IF rv.err # "none" THEN R(SetInactive(Cancel(s, s.nested), x), rv.err)
       ELSE LET o == Op(s, f) IN
            IF o.k = "ok" THEN LET s1 == Cancel(DbCommit(o.st), s.nested) IN R([SetInactive(s1, x) EXCEPT !.root = NoH], "ok")
@@ -159,12 +173,13 @@ SpCloseImpl(s, x, warnFlag, f) ==
 \* NestedTransaction._do_commit; _release_savepoint_impl has no validity check -> goes through execute -> Reval
 SpCommit(s, x, f) ==
    IF s.h[x].active THEN
-      LET rv == Reval(s) IN
-      IF rv.err # "none" THEN R(SetInactive(s, x), rv.err)
-      ELSE IF Guard(s) THEN R(SetInactive(s, x), "PendingRollbackError")
+      \* the connect of a transparent reconnect can itself be hit by the armed fault
+      LET rv == Reval(s, f) IN
+      IF rv.err # "none" THEN R(SetInactive(rv.st, x), rv.err)
+      ELSE IF Guard(s) THEN R(SetInactive(rv.st, x), "PendingRollbackError")
       \* RELEASE goes through Connection.execute: with no root attached (possible only after a failed rollback kept the
-      \* savepoint handle alive) it AUTOBEGINS a new root first
-      ELSE LET sa == Auto(s) o == Op(sa, f) i == SpIndex(sa, sa.h[x].sp) IN
+      \* savepoint handle alive) it reconnects if necessary and AUTOBEGINS a new root first
+      ELSE LET sa == Auto(rv.st) o == Op(sa, f) i == SpIndex(sa, sa.h[x].sp) IN
            IF o.k # "ok" THEN R(SetInactive(o.st, x), ExcName(o.k))
            ELSE IF i = 0 THEN R(SetInactive(sa, x), "OperationalError")
            ELSE LET s1 == SetInactive(DbRelease(sa, i), x) IN
@@ -185,7 +200,7 @@ DoClose(s) == LET s1 == IF s.root # NoH THEN HOp(s, s.root, "close", "none").st 
 Step(name, arg, f, res) == st' = res.st /\ last' = [a |-> name, arg |-> arg, f |-> f, ret |-> res.ret]
 Open == ~st.closed
 FaultChoice == {"none"} \cup (IF st.nfault < MaxFaults /\ st.cur \notin st.deadc THEN Faults ELSE {})
-Begin == Open /\ Len(st.h) < MaxH /\ Step("Begin", 0, "none", DoBegin(st))
+Begin == Open /\ Len(st.h) < MaxH /\ \E f \in (IF st.inv THEN FaultChoice ELSE {"none"}) : Step("Begin", 0, f, DoBegin(st, f))
 BeginNested == Open /\ Len(st.h) + 1 < MaxH /\ \E f \in FaultChoice : Step("BeginNested", 0, f, DoNested(st, f))
 Exec == Open /\ st.nrow < MaxRows /\ Len(st.h) < MaxH /\ \E f \in FaultChoice : Step("Exec", 0, f, DoExec(st, f))
 ConnCommit == Open /\ \E f \in FaultChoice : Step("ConnCommit", 0, f, DoConnCommit(st, f))
@@ -221,7 +236,7 @@ TransparentReconnect == [][ (st.inv /\ st.root = NoH /\ ~Guard(st) /\ last'.a = 
                               => (last'.ret = "ok" /\ ~st'.inv /\ st'.cur \in st'.open /\ st'.cur \notin st'.deadc) ]_vars
 \* 5. errors not classified as disconnects leave the pool untouched
 NonDisconnectLeavesPool == [][ (last'.ret \in {"OperationalError", "ProgrammingError"} /\ last'.f # "none" /\ ~IsDisc(last'.f)
-                                  /\ st.cur \notin st.deadc)
+                                  /\ st.cur \notin st.deadc /\ ~st.inv)      \* (~inv: the error hit an established connection, not a reconnect)
                                  => (st'.idle = st.idle /\ st'.open = st.open /\ st'.stale = st.stale /\ st'.cur = st.cur /\ st'.inv = st.inv) ]_vars
 \* sanity: the connection in use is open; nothing lost from / invented in the committed set
 CurOpen == st.cur # 0 => st.cur \in st.open
